@@ -283,6 +283,28 @@ fn enumerate_times(depth: usize, mut emit: impl FnMut(&[e3_times::Op])) {
     rec(depth, false, &mut Vec::new(), &mut emit);
 }
 
+pub const BIG_SCRIPTS: [&str; 6] = ["B,N,E", "B,N,M,E", "B,N-1,E", "B,N,E,B,N,E", "B,N-1,P,B,N,E", "B,N,Mu"];
+
+/// `B,N,M,E` -> Begin, N matching calls, one more, End
+pub fn big_script(sc: &str, n: usize) -> Vec<e3_times::Op> {
+    let mut h = Vec::new();
+    for tok in sc.split(',') {
+        match tok {
+            "N" => h.extend(std::iter::repeat(e3_times::Op::M).take(n)),
+            "N-1" => h.extend(std::iter::repeat(e3_times::Op::M).take(n - 1)),
+            t => h.push(e3_times::op_from_str(t).expect("op")),
+        }
+    }
+    h
+}
+
+fn big_name(h: &[e3_times::Op], n: usize) -> Option<&'static str> {
+    if n <= 3 {
+        return None;
+    }
+    BIG_SCRIPTS.iter().copied().find(|sc| big_script(sc, n) == h)
+}
+
 pub fn main_times(a: &Args) -> i32 {
     let n: usize = a.extra.iter().position(|x| x == "--n").map(|i| a.extra[i + 1].parse().unwrap()).unwrap_or(1);
     let threads = a.extra.iter().any(|x| x == "--threads");
@@ -290,12 +312,24 @@ pub fn main_times(a: &Args) -> i32 {
         e3_times::POSTMORTEM.store(true, std::sync::atomic::Ordering::Relaxed);
     }
     let mut hists: Vec<Vec<e3_times::Op>> = Vec::new();
+    let big = a.extra.iter().any(|x| x == "--big");
+    if n > 3 {
+        e3_times::BIG_N.store(n, std::sync::atomic::Ordering::SeqCst);
+    }
     if let Some(f) = &a.replay {
         let txt = std::fs::read_to_string(f).expect("replay file");
         let v: Value = vkit::serde_json::from_str(&txt).expect("replay json");
-        let h: Vec<e3_times::Op> = v["case"]["history"].as_array().expect("history").iter().map(|s| e3_times::op_from_str(s.as_str().unwrap()).expect("op")).collect();
+        let h: Vec<e3_times::Op> = if let Some(sc) = v["case"]["big_script"].as_str() { big_script(sc, n) } else { v["case"]["history"].as_array().expect("history").iter().map(|s| e3_times::op_from_str(s.as_str().unwrap()).expect("op")).collect() };
         hists.push(h.clone());
         hists.push(h);
+    } else if big {
+        // long lifetimes around one large budget N: exactly N, one more, one fewer, two lifetimes of N,
+        // N after a lifetime that ended by unwinding
+        for (i, sc) in BIG_SCRIPTS.iter().enumerate() {
+            if i % a.shard.1 == a.shard.0 {
+                hists.push(big_script(sc, n));
+            }
+        }
     } else {
         let mut idx = 0usize;
         enumerate_times(a.depth, |h| {
@@ -319,12 +353,16 @@ pub fn main_times(a: &Args) -> i32 {
     let mut crashed = 0u64;
     let mut digests: Vec<(u64, bool)> = Vec::new();
     for (i, o) in outcomes.iter().enumerate() {
-        let hist_json: Vec<&str> = hists[i].iter().map(e3_times::op_to_str).collect();
+        let bigname = if n > 3 { big_name(&hists[i], n) } else { None };
+        let hist_json: Vec<String> = match bigname {
+            Some(sc) => vec![format!("{sc} with N={n}")],
+            None => hists[i].iter().map(|o| e3_times::op_to_str(o).to_string()).collect(),
+        };
         let mut add = |prop: &str, key: &str, step: u64, what: String, viols: &mut Vec<Value>| {
             let c = seen_keys.entry((prop.to_string(), key.to_string())).or_insert(0);
             *c += 1;
             if *c <= 3 {
-                viols.push(json!({"prop": prop, "key": key, "step": step, "what": what, "history": hist_json, "n": n}));
+                viols.push(json!({"prop": prop, "key": key, "step": step, "what": what, "history": hist_json, "n": n, "big_script": bigname}));
             }
         };
         match o {
@@ -362,11 +400,18 @@ pub fn main_times(a: &Args) -> i32 {
     if let Some(f) = &a.digests {
         let mut s = String::new();
         for (i, d) in digests.iter().enumerate() {
-            s.push_str(&format!("{} {:016x} {}\n", hists[i].iter().map(e3_times::op_to_str).collect::<Vec<_>>().join(","), d.0, d.1 as u8));
+            let name = match big_name(&hists[i], n) {
+                Some(sc) if n > 3 => format!("{sc}@{n}"),
+                _ => hists[i].iter().map(e3_times::op_to_str).collect::<Vec<_>>().join(","),
+            };
+            s.push_str(&format!("{} {:016x} {}\n", name, d.0, d.1 as u8));
         }
         std::fs::write(f, s).unwrap();
     }
-    let samples: Vec<Vec<&str>> = hists.iter().step_by((hists.len() / 4).max(1)).take(4).map(|h| h.iter().map(e3_times::op_to_str).collect()).collect();
+    let samples: Vec<Vec<String>> = hists.iter().step_by((hists.len() / 4).max(1)).take(4).map(|h| match big_name(h, n) {
+        Some(sc) if n > 3 => vec![format!("{sc} with N={n}")],
+        _ => h.iter().map(|o| e3_times::op_to_str(o).to_string()).collect(),
+    }).collect();
     // distinct prefixes: every node of the enumeration tree
     let mut prefixes = 0u64;
     if a.shard.0 == 0 && a.replay.is_none() {
